@@ -310,9 +310,9 @@ def peerSteals (s : State) (p : Nat) : List (Nat × Dl) → R (State × Option N
         pure (s1, some i)
       | none => peerSteals s p rest
 
-/-- `findPiece`.  `legacy = true` is the ladder before the `fix:` commit of C09/17b (allowed-fast
-pieces consulted first also for an unchoking peer in sequential mode); `legacy = false` is the code
-as it is now.  Result: admissible `(state, pick, allowedFast)` outcomes. -/
+/-- `findPiece`.  `legacy = true` is the ladder before the two `fix:` commits of C09 (8da1edd:
+allowed-fast pieces consulted first also for an unchoking peer in sequential mode; 166d17e: the
+end-game short path taken before `pickSequential`); `legacy = false` is the code as it is now.  Result: admissible `(state, pick, allowedFast)` outcomes. -/
 def findPiece (legacy : Bool) (s : State) (p : Nat) : List (R (State × Option (Nat × Bool))) :=
   let ps := s.peers p
   if ps.dl.isSome then [.ok (s, none)]
@@ -331,7 +331,7 @@ def findPiece (legacy : Bool) (s : State) (p : Nat) : List (R (State × Option (
     | some i => [.ok (s, some (i, true))]
     | none =>
     if ps.choking then [.ok (s, none)]
-    else if s.endgame then (pickEndgame s p).map fun r => .ok (s, r.map (·, false))
+    else if s.endgame && (legacy || !s.sequential) then (pickEndgame s p).map fun r => .ok (s, r.map (·, false))
     else
       let firsts : List (State × Option Nat) :=
         if s.sequential then [pickSequential s p] else pickRarest s p
